@@ -26,13 +26,15 @@
        PercentExact = TRUE is the repaired code (integer arithmetic); the pinned code went through a float.
        NewlineByWrites = TRUE is the repaired plain variant (new line before every frame but the first one written);
        FALSE is the pinned code (new line only when step > 0).
-       MoveUpAfterFirst = TRUE is the repaired multi-line variant (cursor-up only when a frame is on screen).
-       FinishShowsStep = TRUE is the repaired finish() (a plain bar skips the final frame only if it is on screen).
+       MoveUpAfterFirst = FALSE is the code (a multi-line format moves the cursor up even before its first frame;
+       pinned by test_multiline_format); TRUE would move up only when a frame is on screen.
+       FinishDrawsNoMax = TRUE is the repaired finish() (a bar without maximum always draws its final frame; the
+       pinned code skipped it on a plain output because it had just set max := step).
    TLC checks A => P.                                                                                           *)
 EXTENDS Integers, Sequences, Terminal
 LOCAL INSTANCE SequencesExt
 
-CONSTANTS PercentExact, NewlineByWrites, MoveUpAfterFirst, FinishShowsStep,
+CONSTANTS PercentExact, NewlineByWrites, MoveUpAfterFirst, FinishDrawsNoMax,
           ClearCountsRows                \* SectionOutput.clear(n) as in Sections.tla (TRUE = repaired)
 
 VARIABLES cfg,       \* [mode, bw, mingap, maxgap, fmt, w, pre, max0]   fixed per behaviour
@@ -117,9 +119,10 @@ Render(b) ==
                              \o <<"]", " ">> \o RJust(Digits(Pct(b)), 3) \o <<"%">> >>
     [] OTHER -> << Cur(b) \o <<"/">> \o Digits(b.max) \o <<" ", "[">> \o BarCells(b) \o <<"]">>, b.msg >>
 FrameOf(b) ==
-  [ok |-> TRUE, cur |-> b.step, hasmax |-> ~(cfg.fmt \in Named /\ b.nomax), max |-> b.max,
-   haspct |-> cfg.fmt = "msg" \/ (cfg.fmt \in Named /\ ~b.nomax), pct |-> Pct(b), bar |-> BarCells(b),
-   lines |-> Render(b)]
+  LET hm == ~(cfg.fmt \in Named /\ b.nomax)
+      hp == cfg.fmt = "msg" \/ (cfg.fmt \in Named /\ ~b.nomax)
+  IN [ok |-> TRUE, cur |-> b.step, hasmax |-> hm, max |-> IF hm THEN b.max ELSE 0,
+      haspct |-> hp, pct |-> IF hp THEN Pct(b) ELSE 0, bar |-> BarCells(b), lines |-> Render(b)]
 
 \* "\n".join(lines): text, newline, text ... without a final newline; an empty line emits nothing
 JoinOps(ls) == FoldLeft(LAMBDA acc, k : acc \o (IF k > 1 THEN <<OpLF>> ELSE <<>>)
@@ -168,13 +171,13 @@ Display(b, s) ==
   ELSE LET b1 == FixFormat(b)
            f  == FrameOf(b1)
            o  == Overwrite(b1, s, f.lines)
-       IN Result(o.ops, [o.b EXCEPT !.drawn = b1.step], o.s, <<f>>)
+       IN Result(o.ops, o.b, o.s, <<f>>)
 
 ClearBar(b, s) ==
   IF Plain THEN Nothing(b, s)
   ELSE LET b1 == FixFormat(b)
            o  == Overwrite(b1, s, [k \in 1..(b1.flc + 1) |-> <<>>])
-       IN Result(o.ops, [o.b EXCEPT !.drawn = -1], o.s, <<>>)
+       IN Result(o.ops, o.b, o.s, <<>>)
 
 SetProgress(b, s, n) ==
   LET grow == b.max > 0 /\ n > b.max
@@ -188,9 +191,12 @@ SetProgress(b, s, n) ==
      ELSE Nothing(b1, s)
 
 Finish(b, s) ==
-  LET b0 == IF b.max = 0 THEN [b EXCEPT !.max = b.step] ELSE b IN
-  IF b0.step = b0.max /\ Plain /\ (FinishShowsStep => b0.drawn = b0.step) THEN Nothing(b0, s)
-  ELSE SetProgress(b0, s, b0.max)
+  IF b.max = 0 THEN                                           \* the maximum is only now defined as the current step
+    LET b0 == [b EXCEPT !.max = b.step] IN
+    IF ~FinishDrawsNoMax /\ Plain THEN Nothing(b0, s)         \* pinned: "step == max and not overwrite: return"
+    ELSE SetProgress(b0, s, b0.max)
+  ELSE IF b.step = b.max /\ Plain THEN Nothing(b, s)          \* prevent a double 100 % frame
+  ELSE SetProgress(b, s, b.max)
 
 Start(b, s, m) ==                                            \* m < 0: start() without a maximum
   LET b1 == IF m < 0 THEN [b EXCEPT !.step = 0]
@@ -200,8 +206,7 @@ Start(b, s, m) ==                                            \* m < 0: start() w
 \* since: ticks since the last write, capped at maxgap; _last_write_time = 0 initially lies in the distant past
 \* (never throttles, always "too late"), which is the cap
 NewBar(m, maxgap) == [max |-> m, step |-> 0, stepw |-> IF m > 0 THEN Len(Digits(m)) ELSE 4, since |-> maxgap,
-                      lastLen |-> 0, writes |-> 0, fmtset |-> FALSE, nomax |-> FALSE, flc |-> 0, msg |-> <<"m">>,
-                      drawn |-> -1]
+                      lastLen |-> 0, writes |-> 0, fmtset |-> FALSE, nomax |-> FALSE, flc |-> 0, msg |-> <<"m">>]
 Tick(b, dt) == [b EXCEPT !.since = TMin(cfg.maxgap, @ + dt)]
 
 \* ------------------------------------------------------------------ behaviours
